@@ -3,7 +3,7 @@
 # with z3-solver, cvc5 and jsonschema from the local wheelhouse.
 # /verif/.venv is not a committed file; every registered command calls this first.
 set -e
-V=/verif/.venv
+V="$(cd "$(dirname "$0")/.." && pwd)/.venv"
 WH=/opt/veriftools/wheels
 STAMP="$V/.ok-v1"
 if [ ! -f "$STAMP" ]; then
@@ -19,6 +19,6 @@ if [ ! -f "$STAMP" ]; then
       "$V/bin/python" -c "import z3, numpy, maz, puan_rspy; import cvc5"
       touch "$STAMP"
     fi
-  ) 9>/verif/.venv.lock
+  ) 9>"$V.lock"
 fi
 exit 0
